@@ -251,7 +251,12 @@ def check_unit(tpl_path, vacuity=True, keep=True):
                                     hit.add(f["qual"])
         missing = [f["qual"] for f in vunit.fns if f["qual"] not in hit]
         res.vacuity = dict(probes=len(vunit.fns), refuted=len(hit), vacuous=missing)
-        if missing:
+        vfront = [d for d in vdiags if d.get("level") == "error" and (d.get("code") or (vjs or {}).get("verification-results", {}).get("encountered-vir-error"))]
+        if vjs is None or vfront or not hit and vunit.fns and not (vjs.get("times-ms", {}).get("smt", {}).get("smt-run-module-times")):
+            res.vacuity["vacuous"] = []
+            if res.status == "ok":
+                res.status, res.reason = "undecided", "the vacuity pass could not be run (front-end error in the probe unit)"
+        elif missing:
             res.status = "undecided"
             res.reason = "vacuity guard: `assert(false)` at entry was NOT refuted in: %s (contradictory precondition or assumed spec)" % ", ".join(missing)
         res.wall_s += vwall
